@@ -27,7 +27,7 @@ export function* generate({ tier, seed }) {
   for (const f of listCorpus('tsx')) yield one(f.src, f.syntax, tier === 'quick' ? [{}, combos[31]] : combos.filter((_, i) => i % 3 === 0), `corpus|${f.name}`);
   for (const f of listFixtureInputs()) yield one(f.src, f.syntax, [f.options, { ...f.options, optimize: !f.options.optimize }, combos[rng.int(32)]], `fixture|${f.name}`);
   // 2b. the explicit list of legal-but-odd forms (typed / async / generator arrows, spread call arguments, directives ...)
-  for (const f of ODD_FORMS) { const src = /^(class|x =|let|a =|a \+=|\(\{|\/\*|\/\/|const|`|tag`|async function|function)/.test(f) ? f : `const v = ${f};`; yield one(src, 'jsx', [{}, combos[31]], `odd|${f.slice(0, 40)}`); }
+  for (const f of ODD_FORMS) { const src = /^(class|x =|let|a =|a \+=|\(\{|\/\*|\/\/|const|`|tag`|async function|function|for \(|while \(|do )/.test(f) ? f : `const v = ${f};`; yield one(src, 'jsx', [{}, combos[31]], `odd|${f.slice(0, 40)}`); }
   for (const f of ODD_TSX) yield one(f, 'tsx', [{ resolveType: true }, { resolveType: true, optimize: true, enableObjectSlots: false }], `oddtsx|${f.slice(0, 60)}`);
   // 3. JSX embedded in arbitrary surrounding code
   const nFuzz = tier === 'quick' ? 12000 : 250000;
